@@ -1,9 +1,224 @@
 import PyamgV.Driver.Util
-/-! Driver ops for property C10 (line protocol). Op names are prefixed `c10_`. -/
+import PyamgV.Model.C10
+import PyamgV.Proofs.C10Proj
+import PyamgV.Proofs.C10Fit
+import Mathlib.Algebra.Order.Ring.Rat
+import Mathlib.Algebra.Field.Rat
+/-! Driver ops for property C10 (line protocol). Op names are prefixed `c10_`.
+Scalar modes: `f` = binary64 (values sent and returned as bit patterns), `cf` = complex binary64
+(interleaved re, im bit patterns), `r` = `Rat`, `c` = Gaussian rationals. -/
 namespace PyamgV.Drv.C10
-open PyamgV PyamgV.Drv
+open PyamgV PyamgV.Drv PyamgV.C10M
+
+def showFloats (a : Array Float) : String := sh (a.toList.map (fun x => toString x.toBits.toNat))
+def parseCFloats (s : String) : Array CFloat :=
+  let a := parseFloats s
+  (Array.range (a.size / 2)).map (fun i => ⟨a.getD (2 * i) 0.0, a.getD (2 * i + 1) 0.0⟩)
+def showCFloats (a : Array CFloat) : String :=
+  sh (a.toList.flatMap (fun z => [toString z.re.toBits.toNat, toString z.im.toBits.toNat]))
+def parseFloat1 (s : String) : Float := (parseFloats s).getD 0 0.0
+
+def parsePat (s : String) : Pat := if s = "none" then #[] else (s.splitOn ";").toArray.map parseNats
+def showMatR (M : Mat Rat) : String := showRats M.flat
+def showMatC (M : Mat CRat) : String := showCRats M.flat
+def matR (r c a : String) : Mat Rat := Mat.unflat (nat r) (nat c) (parseRats a)
+def matC (r c a : String) : Mat CRat := Mat.unflat (nat r) (nat c) (parseCRats a)
+def optR (o : Option (Mat Rat)) : String := match o with | none => "singular" | some M => showMatR M
+def optC (o : Option (Mat CRat)) : String := match o with | none => "singular" | some M => showMatC M
+
+/-- dense matrix of a BSR matrix given by (indptr, indices, data), `nbr x ncb` blocks of `rpb x cpb` -/
+def bsrDense {α : Type} [OfNat α 0] (rpb cpb nbr ncb : Nat) (sp sj : Array Nat) (sx : Array α) : Mat α :=
+  let M0 : Mat α := Array.replicate (nbr * rpb) (Array.replicate (ncb * cpb) 0)
+  (List.range nbr).foldl (fun (M : Mat α) i =>
+    (List.range' (rdN sp i) (rdN sp (i+1) - rdN sp i)).foldl (fun (M : Mat α) jj =>
+      (List.range rpb).foldl (fun (M : Mat α) a =>
+        (List.range cpb).foldl (fun (M : Mat α) b =>
+          let r := i * rpb + a
+          M.setIfInBounds r ((M.getD r #[]).setIfInBounds (rdN sj jj * cpb + b) (sx.getD (jj * rpb * cpb + a * cpb + b) 0))) M) M) M) M0
+
+def okS (b : Bool) : String := if b then "exact" else "inexact"
+
+/-! #### proof-side definitions (`Proofs/C10Proj.lean`, `Proofs/C10Fit.lean`) on `Rat` -/
+
+def matOf (r c : Nat) (a : Array Rat) : Matrix (Fin r) (Fin c) Rat := fun i j => a.getD (i.val * c + j.val) 0
+def flatOf {r c : Nat} (M : Matrix (Fin r) (Fin c) Rat) : Array Rat :=
+  ((List.finRange r).flatMap fun i => (List.finRange c).map fun j => M i j).toArray
+def finsetOf (n : Nat) (l : List Nat) : Finset (Fin n) :=
+  (l.filterMap fun x => if h : x < n then some (⟨x, h⟩ : Fin n) else none).toFinset
+
+/-- `PyamgV.C10.project` for a BSR pattern: row `i` belongs to block row `i / rpb`, its allowed
+columns are the scalar columns of the stored blocks, `Z i` is `BtBinv[i / rpb]` -/
+def pProject (rpb cpb nbr ncb nd : Nat) (bt ub z : Array Rat) (sp sj : Array Nat) (sx : Array Rat) : Array Rat :=
+  let m := nbr * rpb
+  let n := ncb * cpb
+  let U : Matrix (Fin m) (Fin n) Rat := fun i j => (bsrDense rpb cpb nbr ncb sp sj sx).get i.val j.val
+  let J : Fin m → Finset (Fin n) := fun i =>
+    let ib := i.val / rpb
+    finsetOf n ((List.range' (rdN sp ib) (rdN sp (ib+1) - rdN sp ib)).flatMap fun jj =>
+      (List.range cpb).map fun t => rdN sj jj * cpb + t)
+  let Z : Fin m → Matrix (Fin nd) (Fin nd) Rat := fun i => fun a b => z.getD ((i.val / rpb) * nd * nd + a.val * nd + b.val) 0
+  let Bh : Matrix (Fin nd) (Fin n) Rat := fun a j => bt.getD (j.val * nd + a.val) 0
+  let y : Matrix (Fin m) (Fin nd) Rat := matOf m nd ub
+  flatOf (PyamgV.C10.project J Z Bh y U)
+
+/-- `PyamgV.C10.fitAgg` for every aggregate, laid out as dense `T` and `R` like `fitPy` -/
+def pFit (nFine nCoarse K1 K2 : Nat) (ap aj : Array Nat) (b : Array Rat) (tol : Rat) : Array Rat × Array Rat × Array Rat :=
+  let N := nFine * K1
+  let agg : Fin N → Option (Fin nCoarse) := fun i =>
+    let node := i.val / K1
+    if rdN ap (node + 1) > rdN ap node then
+      let a := rdN aj (rdN ap node)
+      if h : a < nCoarse then some ⟨a, h⟩ else none
+    else none
+  let B : Fin N → Nat → Rat := fun i c => b.getD (i.val * K2 + c) 0
+  let ncol := nCoarse * K2
+  let outs := (List.finRange nCoarse).map fun a => PyamgV.C10.fitAgg ratSqrt tol agg B K2 a
+  let dense := ((List.finRange N).flatMap fun i => outs.flatMap fun o =>
+    (List.range K2).map fun c => (o.q.getD c 0) i).toArray
+  let r := (outs.flatMap fun o => (List.range K2).flatMap fun bi => (List.range K2).map fun bj =>
+    let e := o.r.getD bj ([], 0)
+    if bi < bj then e.1.getD bi 0 else if bi = bj then e.2 else 0).toArray
+  let drop := ((List.finRange N).flatMap fun i => outs.flatMap fun o =>
+    (List.range K2).map fun c => (o.drop.getD c 0) i).toArray
+  let _ := ncol
+  (dense, r, drop)
+
+/-- `PyamgV.C10.applyUpdates` on `Rat` matrices -/
+def pApply (n m : Nat) (T : Mat Rat) (ups : List (Rat × Mat Rat)) : Array Rat :=
+  flatOf (PyamgV.C10.applyUpdates (matOf n m T.flat) (ups.map fun u => (u.1, matOf n m u.2.flat)))
+
+/-- hypotheses of `updates_keep_product` / `updates_keep_pattern`, decided on the instance -/
+def upsConstrained (rpb cpb : Nat) (pat : Pat) (B : Mat Rat) (ups : List (Rat × Mat Rat)) : Bool :=
+  ups.all fun u =>
+    (Mat.mul u.2 B).flat.all (· == 0) &&
+    (Mat.sub u.2 (maskDense rpb cpb pat u.2)).flat.all (· == 0)
+
+/-- both sides of `PyamgV.C10.smoothing_polynomial` -/
+def pPoly (n m d : Nat) (mm t : Array Rat) : Array Rat × Array Rat :=
+  let M := matOf n n mm
+  let T := matOf n m t
+  (flatOf ((fun P : Matrix (Fin n) (Fin m) Rat => P - M * P)^[d] T), flatOf ((1 - M) ^ d * T))
+
+/-- `I_F·X + P_I` with the proof-side `IF`, `PI` -/
+def pReset (n nc : Nat) (roots : Array Nat) (x : Array Rat) : Array Rat :=
+  if h : 0 < n then
+    let root : Fin nc → Fin n := fun κ => ⟨roots.getD κ.val 0 % n, Nat.mod_lt _ h⟩
+    let isRoot : Fin n → Prop := fun i => ∃ κ, i = root κ
+    flatOf ((PyamgV.C10.IF isRoot : Matrix (Fin n) (Fin n) Rat) * matOf n nc x + PyamgV.C10.PI root)
+  else #[]
 
 def handle : List String → Option String
+  | ["c10_fitk", "f", ncol, k1, k2, ap, ai, b, tol] =>
+    let st := fitCandidates floatOps (nat ncol) (nat k1) (nat k2) (parseNats ap) (parseNats ai) (parseFloats b) (parseFloat1 tol)
+    some <| showFloats st.ax ++ ";" ++ showFloats st.r ++ ";" ++ okS st.ok
+  | ["c10_fitk", "cf", ncol, k1, k2, ap, ai, b, tol] =>
+    let st := fitCandidates cfloatOps (nat ncol) (nat k1) (nat k2) (parseNats ap) (parseNats ai) (parseCFloats b) (parseFloat1 tol)
+    some <| showCFloats st.ax ++ ";" ++ showCFloats st.r ++ ";" ++ okS st.ok
+  | ["c10_fitk", "r", ncol, k1, k2, ap, ai, b, tol] =>
+    let st := fitCandidates ratOps (nat ncol) (nat k1) (nat k2) (parseNats ap) (parseNats ai) (parseRats b) (parseRat tol)
+    some <| showRats st.ax ++ ";" ++ showRats st.r ++ ";" ++ okS st.ok
+  | ["c10_fitk", "c", ncol, k1, k2, ap, ai, b, tol] =>
+    let st := fitCandidates cratOps (nat ncol) (nat k1) (nat k2) (parseNats ap) (parseNats ai) (parseCRats b) (parseRat tol)
+    some <| showCRats st.ax ++ ";" ++ showCRats st.r ++ ";" ++ okS st.ok
+  | ["c10_fitpy", "f", nf, nc, k1, k2, ap, aj, b, tol] =>
+    let (d, r, ok) := fitPy floatOps (nat nf) (nat nc) (nat k1) (nat k2) (parseNats ap) (parseNats aj) (parseFloats b) (parseFloat1 tol)
+    some <| showFloats d ++ ";" ++ showFloats r ++ ";" ++ okS ok
+  | ["c10_fitpy", "cf", nf, nc, k1, k2, ap, aj, b, tol] =>
+    let (d, r, ok) := fitPy cfloatOps (nat nf) (nat nc) (nat k1) (nat k2) (parseNats ap) (parseNats aj) (parseCFloats b) (parseFloat1 tol)
+    some <| showCFloats d ++ ";" ++ showCFloats r ++ ";" ++ okS ok
+  | ["c10_fitpy", "r", nf, nc, k1, k2, ap, aj, b, tol] =>
+    let (d, r, ok) := fitPy ratOps (nat nf) (nat nc) (nat k1) (nat k2) (parseNats ap) (parseNats aj) (parseRats b) (parseRat tol)
+    some <| showRats d ++ ";" ++ showRats r ++ ";" ++ okS ok
+  | ["c10_fitpy", "c", nf, nc, k1, k2, ap, aj, b, tol] =>
+    let (d, r, ok) := fitPy cratOps (nat nf) (nat nc) (nat k1) (nat k2) (parseNats ap) (parseNats aj) (parseCRats b) (parseRat tol)
+    some <| showCRats d ++ ";" ++ showCRats r ++ ";" ++ okS ok
+  | ["c10_sat", "r", rpb, cpb, nbr, nd, bt, ub, z, sp, sj, sx] =>
+    some <| showRats (satisfyHelper (nat rpb) (nat cpb) (nat nbr) (nat nd) (parseRats bt) (parseRats ub) (parseRats z) (parseNats sp) (parseNats sj) (parseRats sx))
+  | ["c10_sat", "c", rpb, cpb, nbr, nd, bt, ub, z, sp, sj, sx] =>
+    some <| showCRats (satisfyHelper (nat rpb) (nat cpb) (nat nbr) (nat nd) (parseCRats bt) (parseCRats ub) (parseCRats z) (parseNats sp) (parseNats sj) (parseCRats sx))
+  | ["c10_satpy", "r", rpb, cpb, nbr, ncb, nd, sp, sj, sx, b, z] =>
+    let (rpb, cpb, nbr, ncb, nd) := (nat rpb, nat cpb, nat nbr, nat ncb, nat nd)
+    let (sp, sj, sx) := (parseNats sp, parseNats sj, parseRats sx)
+    let B := Mat.unflat (ncb * cpb) nd (parseRats b)
+    let UB := (Mat.mul (bsrDense rpb cpb nbr ncb sp sj sx) B).flat
+    some <| showRats (satisfyHelper rpb cpb nbr nd B.flat UB (parseRats z) sp sj sx)
+  | ["c10_satpy", "c", rpb, cpb, nbr, ncb, nd, sp, sj, sx, b, z] =>
+    let (rpb, cpb, nbr, ncb, nd) := (nat rpb, nat cpb, nat nbr, nat ncb, nat nd)
+    let (sp, sj, sx) := (parseNats sp, parseNats sj, parseCRats sx)
+    let B := Mat.unflat (ncb * cpb) nd (parseCRats b)
+    let UB := (Mat.mul (bsrDense rpb cpb nbr ncb sp sj sx) B).flat
+    some <| showCRats (satisfyHelper rpb cpb nbr nd (B.flat.map CRat.conj) UB (parseCRats z) sp sj sx)
+  | ["c10_btb", "r", nd, nn, cpb, bsq, bc, sp, sj] =>
+    some <| showRats (calcBtB id (nat nd) (nat nn) (nat cpb) (parseRats bsq) (nat bc) (parseNats sp) (parseNats sj))
+  | ["c10_btb", "c", nd, nn, cpb, bsq, bc, sp, sj] =>
+    some <| showCRats (calcBtB CRat.conj (nat nd) (nat nn) (nat cpb) (parseCRats bsq) (nat bc) (parseNats sp) (parseNats sj))
+  | ["c10_imm", "r", ap, aj, ax, bp, bj, bx, sp, sj, sx, nbr, nbc, ra, ca, cb] =>
+    some <| showRats (incompleteMatMultBsr (parseNats ap) (parseNats aj) (parseRats ax) (parseNats bp) (parseNats bj) (parseRats bx)
+      (parseNats sp) (parseNats sj) (parseRats sx) (nat nbr) (nat nbc) (nat ra) (nat ca) (nat cb))
+  | ["c10_imm", "c", ap, aj, ax, bp, bj, bx, sp, sj, sx, nbr, nbc, ra, ca, cb] =>
+    some <| showCRats (incompleteMatMultBsr (parseNats ap) (parseNats aj) (parseCRats ax) (parseNats bp) (parseNats bj) (parseCRats bx)
+      (parseNats sp) (parseNats sj) (parseCRats sx) (nat nbr) (nat nbc) (nat ra) (nat ca) (nat cb))
+  | ["c10_filter", "r", rpb, cpb, nd, pat, n, m, a, b, bf] =>
+    some <| optR (filterOperator id (nat rpb) (nat cpb) (nat nd) (parsePat pat) (matR n m a) (matR m nd b) (matR n nd bf))
+  | ["c10_filter", "c", rpb, cpb, nd, pat, n, m, a, b, bf] =>
+    some <| optC (filterOperator CRat.conj (nat rpb) (nat cpb) (nat nd) (parsePat pat) (matC n m a) (matC m nd b) (matC n nd bf))
+  | ["c10_satdense", "r", rpb, cpb, nd, pat, n, m, u, b] =>
+    some <| optR (satisfyDense id (nat rpb) (nat cpb) (nat nd) (parsePat pat) (matR n m u) (matR m nd b))
+  | ["c10_satdense", "c", rpb, cpb, nd, pat, n, m, u, b] =>
+    some <| optC (satisfyDense CRat.conj (nat rpb) (nat cpb) (nat nd) (parsePat pat) (matC n m u) (matC m nd b))
+  | ["c10_scaleT", bs, cpts, n, m, t] =>
+    some <| optR (scaleT (nat bs) (parseNats cpts) (matR n m t))
+  | ["c10_smooth", wt, bs, w, deg, n, m, s, absrow, t] =>
+    match scaledMatrix (nat wt) (nat bs) (parseRat w) (matR n n s) (parseRats absrow) with
+    | none => some "singular"
+    | some M =>
+      let T := matR n m t
+      some <| showMatR (smoothLoop M (nat deg) T) ++ ";" ++ showMatR (polyApply M (nat deg) T)
+  | ["c10_jacf", wt, bs, w, rpb, cpb, nd, n, m, s, absrow, b, pats, t] =>
+    match scaledMatrix (nat wt) (nat bs) (parseRat w) (matR n n s) (parseRats absrow) with
+    | none => some "singular"
+    | some M =>
+      let pl := if pats = "-" then [] else (pats.splitOn "|").map parsePat
+      let B := matR m nd b
+      match filteredLoop id (nat rpb) (nat cpb) (nat nd) M B pl (matR n m t) with
+      | none => some "singular"
+      | some (P, us) =>
+        -- hypotheses of updates_keep_product decided on the instance, and the proof-side fold replayed
+        let ups := us.map (fun U => ((-1 : Rat), U))
+        let flag := if (us.all fun U => (Mat.mul U B).flat.all (· == 0)) && pApply (nat n) (nat m) (matR n m t) ups == P.flat
+          then "constrained" else "UNCONSTRAINED"
+        some <| showMatR P ++ ";" ++ flag
+  | ["c10_energy", cgnr, wt, bs, rpb, cpb, nd, pat, n, m, a, aux, t, b, maxiter, tol, cpts] =>
+    let A := matR n n a
+    let T := matR n m t
+    let B := matR m nd b
+    let pt := parsePat pat
+    match mkPrecond (nat wt) (nat bs) A (parseRats aux) with
+    | none => some "singular"
+    | some pre =>
+      let o := energyCG id (fun x y => decide (x < y)) (cgnr == "1") (nat rpb) (nat cpb) (nat nd) pt A pre T B
+        (nat maxiter) (parseRat tol) (parseNats cpts)
+      let flags := (if o.ok then "ok" else "singular") ++ "," ++ (if o.breakdown then "breakdown" else "regular") ++ "," ++
+        (if upsConstrained (nat rpb) (nat cpb) pt B o.ups then "constrained" else "UNCONSTRAINED") ++ "," ++
+        (if (parseNats cpts).isEmpty then (if pApply (nat n) (nat m) T o.ups == o.T.flat then "fold" else "NOFOLD") else "roots")
+      some <| showMatR o.T ++ ";" ++ flags ++ ";" ++ showRats o.sums.toArray ++ ";" ++ toString o.ups.length
+  | ["c10_p_proj", rpb, cpb, nbr, ncb, nd, bt, ub, z, sp, sj, sx] =>
+    some <| showRats (pProject (nat rpb) (nat cpb) (nat nbr) (nat ncb) (nat nd) (parseRats bt) (parseRats ub) (parseRats z)
+      (parseNats sp) (parseNats sj) (parseRats sx))
+  | ["c10_p_fit", nf, nc, k1, k2, ap, aj, b, tol] =>
+    let (d, r, dr) := pFit (nat nf) (nat nc) (nat k1) (nat k2) (parseNats ap) (parseNats aj) (parseRats b) (parseRat tol)
+    some <| showRats d ++ ";" ++ showRats r ++ ";" ++ showRats dr
+  | ["c10_p_poly", n, m, d, mm, t] =>
+    let (a, b) := pPoly (nat n) (nat m) (nat d) (parseRats mm) (parseRats t)
+    some <| showRats a ++ ";" ++ showRats b
+  | ["c10_p_smooth", wt, bs, w, deg, n, m, s, absrow, t] =>
+    match scaledMatrix (nat wt) (nat bs) (parseRat w) (matR n n s) (parseRats absrow) with
+    | none => some "singular"
+    | some M =>
+      let (a, b) := pPoly (nat n) (nat m) (nat deg) M.flat (parseRats t)
+      some <| showRats a ++ ";" ++ showRats b
+  | ["c10_p_reset", n, nc, roots, x] =>
+    some <| showRats (pReset (nat n) (nat nc) (parseNats roots) (parseRats x))
   | _ => none
 
 end PyamgV.Drv.C10
